@@ -53,7 +53,9 @@ XzSel == { c \in Xz : \/ (Thorough /\ (c.filter = "none" \/ (c.preset = 6 /\ ~c.
                       \/ (~Thorough /\ ~c.extreme /\ c.blocks = "one" /\ c.filter = "none" /\ c.check = "crc64")
                       \/ (~Thorough /\ c.preset = 6 /\ ~c.extreme /\ c.blocks = "one" /\ c.filter = "none")
                       \/ (~Thorough /\ c.preset = 2 /\ ~c.extreme /\ c.check = "crc32" /\ c.blocks = "one")
-                      \/ (~Thorough /\ c.preset \in {1, 9} /\ c.check = "sha256" /\ c.filter = "none") }
+                      \/ (~Thorough /\ c.preset \in {1, 9} /\ c.check = "sha256" /\ c.filter = "none")
+                      \* several blocks behind a non-final filter (the filter's look-ahead state at a block boundary)
+                      \/ (~Thorough /\ c.preset = 0 /\ ~c.extreme /\ c.check = "crc32" /\ c.blocks = "many" /\ c.filter \in {"x86", "armthumb", "delta4"}) }
 Lzma == [family : {"lzma"}, preset : 0..9, extreme : BOOLEAN]
 LzmaSel == { c \in Lzma : Thorough \/ ~c.extreme \/ c.preset \in {0, 9} }
 
